@@ -89,7 +89,7 @@ func loopOfByteReads(f *ssa.Function) (header *ssa.BasicBlock, byteVal ssa.Value
 }
 
 // buildFSM evaluates the body of the loop with the given header.
-func buildFSM(c *Ctx, f *ssa.Function, header *ssa.BasicBlock, byteVal ssa.Value) *fsm {
+func buildFSM(c *Ctx, f *ssa.Function, header *ssa.BasicBlock, byteVal ssa.Value, extra ...fsmInput) *fsm {
 	m := &fsm{c: c, f: f, header: header, byteIn: -1}
 	nl := naturalLoop(header)
 	region := map[*ssa.BasicBlock]bool{}
@@ -116,6 +116,7 @@ func buildFSM(c *Ctx, f *ssa.Function, header *ssa.BasicBlock, byteVal ssa.Value
 			m.inputs = append(m.inputs, fsmInput{phi, sortedKeys(dom), phi.Comment})
 		}
 	}
+	m.inputs = append(m.inputs, extra...)
 	if byteVal != nil {
 		m.byteIn = len(m.inputs)
 		m.inputs = append(m.inputs, fsmInput{byteVal, byteDomain(), "b"})
@@ -339,6 +340,9 @@ func describeEffect(sy *symb, in ssa.Instruction, byteV ssa.Value) string {
 				}
 				return "append(" + sy.expr(x.Call.Args[0]).String() + ", " + strings.Join(vs, ",") + ")"
 			}
+			if b.Name() == "delete" {
+				return "delete(" + sy.expr(x.Call.Args[0]).String() + ", " + val(x.Call.Args[1]) + ")"
+			}
 			return ""
 		}
 		callee := x.Call.StaticCallee()
@@ -346,6 +350,9 @@ func describeEffect(sy *symb, in ssa.Instruction, byteV ssa.Value) string {
 			return "call ?"
 		}
 		qn := qname(callee)
+		if effectFree(callee, 0) {
+			return "" // a value helper (e.g. a byte predicate): its result is evaluated, it has no effect of its own
+		}
 		switch {
 		case strings.HasSuffix(qn, ".Len") || strings.HasSuffix(qn, ".String") || strings.HasPrefix(qn, "fmt.") || strings.HasPrefix(qn, "strings.") || strings.HasPrefix(qn, "strconv."):
 			return "" // pure
@@ -719,4 +726,47 @@ func recordFieldName(c *Ctx, rel, tname string, k int) string {
 		return fmt.Sprintf("f%d", k)
 	}
 	return st.Field(k).Name()
+}
+
+// effectFree: the function only computes a value: no stores outside its own locals, no map updates, no sends,
+// no calls except builtins and other effect-free functions of the module (two levels), no panics.
+func effectFree(f *ssa.Function, depth int) bool {
+	if f == nil || f.Blocks == nil || depth > 2 {
+		return false
+	}
+	ok := true
+	instrs(f, func(in ssa.Instruction) {
+		switch x := in.(type) {
+		case *ssa.Store:
+			if _, local := x.Addr.(*ssa.Alloc); local {
+				return
+			}
+			if ia, isIA := x.Addr.(*ssa.IndexAddr); isIA {
+				if al, isAl := ia.X.(*ssa.Alloc); isAl && !al.Heap {
+					return
+				}
+			}
+			ok = false
+		case *ssa.MapUpdate, *ssa.Send, *ssa.Go, *ssa.Defer, *ssa.Panic, *ssa.MakeClosure:
+			ok = false
+		case *ssa.Alloc:
+			if x.Heap {
+				ok = false
+			}
+		case ssa.CallInstruction:
+			cc := x.Common()
+			if b, isB := cc.Value.(*ssa.Builtin); isB {
+				switch b.Name() {
+				case "len", "cap", "min", "max":
+					return
+				}
+				ok = false
+				return
+			}
+			if g := cc.StaticCallee(); g == nil || g.Pkg != f.Pkg || !effectFree(g, depth+1) {
+				ok = false
+			}
+		}
+	})
+	return ok
 }
